@@ -58,6 +58,107 @@ type Budget struct {
 // besides the exploration budget; it never influences a run's outcome.
 var RunWatchdog = 120 * time.Second
 
+func writeJournal(idx, rs uint64, tp []uint64) {
+	j := os.Getenv("VERIF_JOURNAL")
+	if j == "" {
+		return
+	}
+	var b strings.Builder
+	fmt.Fprintf(&b, "%d %d", idx, rs)
+	for _, v := range tp {
+		fmt.Fprintf(&b, " %d", v)
+	}
+	_ = os.WriteFile(j, []byte(b.String()+"\n"), 0o644)
+}
+
+func readJournal(path string) (idx, rs uint64, tp []uint64, ok bool) {
+	b, err := os.ReadFile(path)
+	if err != nil {
+		return
+	}
+	f := strings.Fields(string(b))
+	if len(f) < 2 {
+		return
+	}
+	idx, _ = strconv.ParseUint(f[0], 10, 64)
+	rs, _ = strconv.ParseUint(f[1], 10, 64)
+	for _, x := range f[2:] {
+		v, _ := strconv.ParseUint(x, 10, 64)
+		tp = append(tp, v)
+	}
+	return idx, rs, tp, true
+}
+
+func scratchDir() string {
+	if d := os.Getenv("VERIF_SCRATCH"); d != "" {
+		return d
+	}
+	return os.TempDir()
+}
+
+// ConfirmCrash runs one run alone in a fresh child process. It returns a
+// violation class and detail when the child dies or does not return in time,
+// "" when it completes.
+func ConfirmCrash(exe, id string, runSeed uint64, tp []uint64, tier string, timeoutS float64, extraEnv []string) (string, string) {
+	args := []string{"one", id, strconv.FormatUint(runSeed, 10), tier}
+	if len(tp) > 0 {
+		var parts []string
+		for _, v := range tp {
+			parts = append(parts, strconv.FormatUint(v, 10))
+		}
+		args = append(args, strings.Join(parts, ","))
+	}
+	cmd := exec.Command(exe, args...)
+	cmd.Env = append(os.Environ(), extraEnv...)
+	var out bytes.Buffer
+	cmd.Stdout = &bytes.Buffer{}
+	cmd.Stderr = &out
+	if err := cmd.Start(); err != nil {
+		return "", ""
+	}
+	done := make(chan error, 1)
+	go func() { done <- cmd.Wait() }()
+	select {
+	case err := <-done:
+		if err == nil {
+			return "", ""
+		}
+		txt := out.String()
+		first := ""
+		for _, ln := range strings.Split(txt, "\n") {
+			if strings.HasPrefix(ln, "fatal error:") || strings.HasPrefix(ln, "panic:") || strings.Contains(ln, "stack overflow") {
+				first = strings.TrimSpace(ln)
+				break
+			}
+		}
+		where := ""
+		for _, ln := range strings.Split(txt, "\n") {
+			if strings.Contains(ln, "github.com/uhn/ggql/pkg/ggql.") {
+				where = strings.TrimSpace(ln)
+				if i := strings.Index(where, "("); i > 0 && strings.HasSuffix(where, ")") {
+					where = where[:strings.LastIndex(where, "(")]
+				}
+				break
+			}
+		}
+		if len(txt) > 1500 {
+			txt = txt[:1500] + "..."
+		}
+		cls := "process_crash"
+		if strings.Contains(first, "stack overflow") || strings.Contains(txt, "stack overflow") {
+			cls = "stack_overflow"
+		}
+		if where != "" {
+			cls += ":" + strings.TrimPrefix(where, "github.com/uhn/ggql/pkg/ggql.")
+		}
+		return cls, fmt.Sprintf("run seed %d kills the process (%v): %s\n%s", runSeed, err, first, txt)
+	case <-time.After(time.Duration((timeoutS + 10) * float64(time.Second))):
+		_ = cmd.Process.Kill()
+		<-done
+		return "hang", fmt.Sprintf("run seed %d does not return within %.0f s in a fresh process (reproduce: verif one %s %d %s)", runSeed, timeoutS+10, id, runSeed, tier)
+	}
+}
+
 // VerifDir is where evidence/replays/known findings live.
 func VerifDir() string {
 	if d := os.Getenv("VERIF_DIR"); d != "" {
@@ -122,9 +223,14 @@ func RunWorker(c Check, tier string, seed uint64, worker, of int, b Budget) int 
 		// the code under test (C03's business) or in the harness. It cannot be
 		// interrupted, so the worker reports it and exits 2 (never a VIOLATION of
 		// this property).
-		wd := time.AfterFunc(RunWatchdog, func() {
+		writeJournal(idx, rs, nil)
+		wdLimit := RunWatchdog
+		if cc, ok := c.(CrashChecker); ok {
+			wdLimit = time.Duration(cc.RunTimeout() * float64(time.Second))
+		}
+		wd := time.AfterFunc(wdLimit, func() {
 			fmt.Printf("SUMMARY {\"worker\":%d,\"fatal\":\"run %d (run seed %d) did not return within %v: hang in the code under test or in the harness; reproduce with: verif one %s %d %s\"}\n",
-				worker, idx, rs, RunWatchdog, c.ID(), rs, tier)
+				worker, idx, rs, wdLimit, c.ID(), rs, tier)
 			os.Exit(2)
 		})
 		res := c.Run(tp, opt)
@@ -136,6 +242,7 @@ func RunWorker(c Check, tier string, seed uint64, worker, of int, b Budget) int 
 		// determinism self-test on the first runs of every worker: the same
 		// tape must give the same signature and the same verdict.
 		if i < 2 {
+			writeJournal(idx, rs, tp.Rec())
 			res2 := c.Run(tape.Replay(tp.Rec()), RunOpt{Tier: tier})
 			sum.SelfTestRuns++
 			// (reports of the race detector are excluded: it can miss a race in one
@@ -183,6 +290,7 @@ func RunWorker(c Check, tier string, seed uint64, worker, of int, b Budget) int 
 				tries = 3
 			}
 			fails := func(cand []uint64) bool {
+				writeJournal(idx, rs, cand)
 				for k := 0; k < tries; k++ {
 					r := c.Run(tape.Replay(cand), RunOpt{Tier: tier})
 					u, _ := unknownViolations(findings, r.Violations)
@@ -270,7 +378,8 @@ func RunMaster(c Check, tier string, seed uint64, workers int, b Budget, extraEn
 			cmd := exec.Command(exe, "worker", c.ID(), "--tier", tier, "--seed", strconv.FormatUint(seed, 10),
 				"--worker", strconv.Itoa(w), "--of", strconv.Itoa(workers))
 			cmd.Env = append(os.Environ(), extraEnv...)
-			cmd.Env = append(cmd.Env, fmt.Sprintf("VERIF_WORKER=%d", w), "GOMAXPROCS=2")
+			journal := filepath.Join(scratchDir(), fmt.Sprintf("journal.%s.%d", c.ID(), w))
+			cmd.Env = append(cmd.Env, fmt.Sprintf("VERIF_WORKER=%d", w), "GOMAXPROCS=2", "VERIF_JOURNAL="+journal)
 			var stdout, stderr bytes.Buffer
 			cmd.Stdout = &stdout
 			cmd.Stderr = &stderr
@@ -310,6 +419,36 @@ func RunMaster(c Check, tier string, seed uint64, workers int, b Budget, extraEn
 	}
 	wg.Wait()
 	fatal := false
+	var crashReports []Reported
+	if cc, ok := c.(CrashChecker); ok {
+		// a worker that died or hung: re-run the journalled run alone in a fresh
+		// child process; if that dies or hangs too it is a violation, not trouble.
+		for w := range errs {
+			dead := errs[w] != "" || (sums[w] != nil && strings.Contains(sums[w].Fatal, "did not return within"))
+			if !dead {
+				continue
+			}
+			journal := filepath.Join(scratchDir(), fmt.Sprintf("journal.%s.%d", c.ID(), w))
+			idx, rs, jt, ok := readJournal(journal)
+			if !ok {
+				continue
+			}
+			class, detail := ConfirmCrash(exe, c.ID(), rs, jt, tier, cc.RunTimeout(), extraEnv)
+			if class == "" {
+				continue // not reproduced: stays harness trouble
+			}
+			rf := &ReplayFile{Property: cc.CrashIsViolation(), Tier: tier, Seed: seed, RunIndex: idx, RunSeed: rs, SeedOnly: true, Tape: jt,
+				Violation: Violation{Property: cc.CrashIsViolation(), Class: class, Detail: detail}}
+			path, werr := WriteReplay(filepath.Join(VerifDir(), "replays"), rf)
+			if werr == nil {
+				crashReports = append(crashReports, Reported{Violation: rf.Violation, Replay: path, RunIndex: idx})
+				errs[w] = ""
+				if sums[w] != nil {
+					sums[w].Fatal = ""
+				}
+			}
+		}
+	}
 	for w, e := range errs {
 		if e != "" {
 			fmt.Printf("FATAL worker %d: %s\n", w, e)
@@ -319,6 +458,9 @@ func RunMaster(c Check, tier string, seed uint64, workers int, b Budget, extraEn
 	total := WorkerSummary{Counters: map[string]int{}, Known: map[string]int{}, KnownExample: map[string]string{}}
 	sigs := map[uint64]struct{}{}
 	byClass := map[string]Reported{}
+	for _, r := range crashReports {
+		byClass[r.Violation.Class] = r
+	}
 	for _, s := range sums {
 		if s == nil {
 			continue
@@ -501,6 +643,20 @@ func oneLine(s string, max int) string {
 
 // RunReplay re-executes a replay file; exit 1 when the violation reproduces.
 func RunReplay(c Check, rf *ReplayFile) int {
+	if rf.SeedOnly {
+		exe, _ := os.Executable()
+		tout := 30.0
+		if cc, ok := c.(CrashChecker); ok {
+			tout = cc.RunTimeout()
+		}
+		class, detail := ConfirmCrash(exe, c.ID(), rf.RunSeed, rf.Tape, rf.Tier, tout, nil)
+		if class != "" {
+			fmt.Printf("REPRODUCED class=%q\n%s\nVIOLATION property=%s replay=(this file)\n", class, detail, rf.Property)
+			return 1
+		}
+		fmt.Println("NOT REPRODUCED: the run completes on this tree")
+		return 0
+	}
 	fmt.Printf("replaying property=%s seed=%d run_index=%d tape_len=%d (original %d)\n", rf.Property, rf.Seed, rf.RunIndex, len(rf.Tape), rf.OrigLen)
 	res := c.Run(tape.Replay(rf.Tape), RunOpt{Tier: rf.Tier, WantSample: true, Replay: true})
 	if res.Fatal != "" {
